@@ -364,3 +364,66 @@ impl VT {
 		self
 	}
 }
+
+
+// ------------------------------------------------------------------------------------------
+// Trait probes: which optional traits a *concrete* type implements is discovered at compile time
+// (inherent method preferred over a blanket trait method), so a newly added `MaxEncodedLen` /
+// `ConstEncodedLen` / `DecodeLength` / `DecodeWithMemTracking` impl in the crate is picked up by the
+// registry and checked without touching the generator.
+// ------------------------------------------------------------------------------------------
+
+pub struct Probe<T>(pub std::marker::PhantomData<T>);
+
+pub trait ProbeFallback {
+	fn mel_fn(&self) -> Option<fn() -> usize> {
+		None
+	}
+	fn is_cel(&self) -> bool {
+		false
+	}
+	fn len_fn(&self) -> Option<fn(&[u8]) -> Result<usize, String>> {
+		None
+	}
+	fn mem_vt(&self) -> Option<MemVT> {
+		None
+	}
+}
+impl<T> ProbeFallback for Probe<T> {}
+
+impl<T: MaxEncodedLen> Probe<T> {
+	pub fn mel_fn(&self) -> Option<fn() -> usize> {
+		Some(mel::<T>)
+	}
+}
+impl<T: ConstEncodedLen> Probe<T> {
+	pub fn is_cel(&self) -> bool {
+		true
+	}
+}
+impl<T: DecodeLength> Probe<T> {
+	pub fn len_fn(&self) -> Option<fn(&[u8]) -> Result<usize, String>> {
+		Some(dlen::<T>)
+	}
+}
+impl<T: Subject + DecodeWithMemTracking> Probe<T> {
+	pub fn mem_vt(&self) -> Option<MemVT> {
+		Some(MemVT { decode_mem_limit: dec_mem::<T>, used_mem: used_mem::<T>, payload: payload::<T> })
+	}
+}
+
+/// `vt!(T, "name", "class", core)`: base table plus every optional trait the concrete type has.
+#[macro_export]
+macro_rules! vt {
+	($t:ty, $name:expr, $class:expr, $core:expr) => {{
+		#[allow(unused_imports)]
+		use $crate::vt::ProbeFallback as _;
+		let p = $crate::vt::Probe::<$t>(std::marker::PhantomData);
+		let mut v = $crate::vt::VT::base::<$t>($name, $class, $core);
+		v.mel = p.mel_fn();
+		v.cel = p.is_cel();
+		v.len = p.len_fn();
+		v.mem = p.mem_vt();
+		v
+	}};
+}
